@@ -156,7 +156,13 @@ func (fr *frame) jsonEncode(v value, t types.Type) *jnode {
 			}
 			n, err := parseJSON(bytesOf(l))
 			if err != nil {
-				panic(pathAbort{"unsupported", "invalid RawMessage"})
+				// as the native encoder: validity is checked by compacting the raw text
+				var sink bytes.Buffer
+				nerr := json.Compact(&sink, bytesOf(l))
+				if nerr == nil {
+					nerr = err
+				}
+				panic(jsonEncErr{fmt.Errorf("json: error calling MarshalJSON for type json.RawMessage: %v", nerr)})
 			}
 			return n
 		}
@@ -407,6 +413,8 @@ func parseJSONValue(dec *json.Decoder) (*jnode, error) {
 	}
 	return nil, fmt.Errorf("unexpected token %v", tok)
 }
+
+type jsonEncErr struct{ err error }
 
 // jsonMarshal implements json.Marshal(v any).
 func (fr *frame) jsonMarshal(v value) value {
